@@ -257,6 +257,68 @@ def part(args):
     return n, res, classes
 
 
+def shared_layout_message(session, entries):
+    """the same entries with a de-duplicated option array: runs that hold the same options point at the
+    same slots (legal, and what the library's own encoder emits)"""
+    options = []
+    raw = []
+    for kind, service, instance, major, ttl, last, r1, r2 in entries:
+        idx = []
+        for run in (r1, r2):
+            if not run:
+                idx.append((0, 0))
+                continue
+            pos = next((i for i in range(len(options) - len(run) + 1) if tuple(options[i:i + len(run)]) == tuple(run)), None)
+            if pos is None:
+                pos = len(options)
+                options.extend(run)
+            idx.append((pos, len(run)))
+        raw.append(dict(type=refcodec.ENTRY_CODES[kind], i1=idx[0][0], n1=idx[0][1], i2=idx[1][0], n2=idx[1][1],
+                        service=service, instance=instance, major=major, ttl=ttl, last=last))
+    return refcodec.enc_someip(0xFFFF, 0x8100, 0, session, 1, 2, 0, refcodec.enc_sd(0xC0, raw, options))
+
+
+def part_shared(args):
+    """Subscribe entries whose two option runs share options (same endpoint in both runs; run 2 a suffix of
+    run 1), alone and next to a second entry that shares them too"""
+    name, s, s2, reject, collect = args
+    res = []
+    n = 0
+    ep1, ep2 = refcodec.v4("192.0.2.91", 4000), refcodec.v4("192.0.2.91", 4001)
+    layouts = [((ep1,), (ep1,)), ((ep1, ep2), (ep2,)), ((ep1, ep2), (ep1, ep2)), ((ep1,), ())]
+    for (r1, r2), eg, ttl, two in itertools.product(layouts, (5, 6, 7), (3, 0), (False, True)):
+        ents = [("subscribe", s, 1, 1, ttl, eg, r1, r2)]
+        if two:
+            ents.append(("subscribe", s, 1, 1, 3, (1 << 16) | 5, r1, r2))
+        loop, seam, prot, log, listeners, specs, egs = build_world(name, s, s2, reject, collect)
+        try:
+            t0 = loop.time()
+            prot.datagram_received(shared_layout_message(1, ents), CL, False)
+            loop.run_until(t0 + 2 * C)
+            acks = []
+            for t, it, d, addr in prot.transport.sent:
+                for m in refcodec.dec_sd_datagram(d):
+                    acks += [(x[5] & 0xFFFF, (x[5] >> 16) & 0xF, x[4]) for x in m["entries"] if x[0] == "suback"]
+            n += 1
+            for e in ents:
+                if e[4] == 0:
+                    continue
+                eg_, cnt = e[5] & 0xFFFF, (e[5] >> 16) & 0xF
+                known, ok = accepts(name, specs, egs, reject, (e[1], e[2], e[3], eg_))
+                want = e[4] if ok else 0
+                if (eg_, cnt, want) not in acks:
+                    res.append(("answer", "missing-shared-option-runs",
+                                f"Subscribe whose option runs share options ({len(r1)}+{len(r2)} references): no SubscribeAck "
+                                f"({eg_}, {cnt}, ttl {want}); acks {acks}",
+                                dict(server=name, reject=reject, shared=True, eg=eg_, ttl=e[4], runs=(len(r1), len(r2)), sids=(s, s2))))
+        except Exception as ex:  # noqa: BLE001
+            res.append(("no-exception", type(ex).__name__, str(ex), dict(server=name, shared=True, sids=(s, s2))))
+        finally:
+            seam.__exit__(None, None, None)
+            loop.dispose()
+    return n, res, {}
+
+
 def part_pairs(args):
     name, s, s2, reject, collect = args
     red = list(itertools.product((5, 6, 7), (0, 3), (0, 1)))  # eventgroup x ttl x counter
@@ -282,7 +344,7 @@ def check(ctx):
     out = core.pmap(part, jobs, 1)
     pj = [(name, s, s2, reject, col) for name in ("running", "three", "stopped", "wild-instance")
           for reject in (0, 1) for col in (0, C)]
-    out2 = core.pmap(part_pairs, pj, 1)
+    out2 = core.pmap(part_pairs, pj, 1) + core.pmap(part_shared, pj, 1)
     viols = []
     classes = {}
     n = 0
